@@ -2,38 +2,38 @@
 From Ergo Require Import Common.Base Sched.Model Sched.CountFacts Sched.TokenInv Sched.TokenProofs Sched.ReasonProofs
   Sched.MetaModel Sched.MetaProofs.
 
-Definition reach sched named selfs initok others := run sched (init_cfg named selfs initok others).
+Definition reach sched named lim fb selfs initok others := run sched (init_cfg named lim fb selfs initok others).
 
 (* the terminate callback begins at most once, whatever causes race (handler error, panic,
    any number of Kill calls, in any interleaving) *)
-Theorem C05_once : forall sched named selfs initok others,
+Theorem C05_once : forall sched named lim fb selfs initok others,
   Forall (fun p => init_pc p = true) others ->
-  terms (sh (reach sched named selfs initok others)) <= 1.
+  terms (sh (reach sched named lim fb selfs initok others)) <= 1.
 Proof. intros. apply Inv_terms_le1. apply Inv_reachable. assumption. Qed.
 Print Assumptions C05_once.
 
 (* and exactly once for a process that was finalised, never for one that was not *)
-Theorem C05_exactly_once_at_end : forall sched named selfs initok others,
+Theorem C05_exactly_once_at_end : forall sched named lim fb selfs initok others,
   Forall (fun p => init_pc p = true) others ->
-  let c := reach sched named selfs initok others in
+  let c := reach sched named lim fb selfs initok others in
   quiescent c = true -> terms (sh c) = if fin (sh c) then 1 else 0.
 Proof. intros. apply Inv_terms_exact; [apply Inv_reachable; assumption | assumption]. Qed.
 Print Assumptions C05_exactly_once_at_end.
 
 (* after the finalising swap nobody can run an ordinary callback: no owner of the
    pre-termination kind exists, the state word stays Terminated (or transiently Zombee) *)
-Theorem C05_final : forall sched named selfs initok others,
+Theorem C05_final : forall sched named lim fb selfs initok others,
   Forall (fun p => init_pc p = true) others ->
-  let c := reach sched named selfs initok others in
+  let c := reach sched named lim fb selfs initok others in
   fin (sh c) = true ->
   count holder_pre (thr c) = 0 /\ (st (sh c) = Terminated \/ st (sh c) = Zombee).
 Proof. intros. apply Inv_final_no_runner; [apply Inv_reachable; assumption | assumption]. Qed.
 Print Assumptions C05_final.
 
 (* ... and it stays like that: finalisation is never undone and no message is handled later *)
-Theorem C05_nothing_afterwards : forall sched named selfs initok others i c',
+Theorem C05_nothing_afterwards : forall sched named lim fb selfs initok others i c',
   Forall (fun p => init_pc p = true) others ->
-  let c := reach sched named selfs initok others in
+  let c := reach sched named lim fb selfs initok others in
   fin (sh c) = true -> step c i = Some c' ->
   fin (sh c') = true /\ handled (sh c') = handled (sh c).
 Proof.
@@ -43,9 +43,9 @@ Qed.
 Print Assumptions C05_nothing_afterwards.
 
 (* the terminate callback runs only when no other callback is executing (it is the last) *)
-Theorem C05_terminate_alone : forall sched named selfs initok others,
+Theorem C05_terminate_alone : forall sched named lim fb selfs initok others,
   Forall (fun p => init_pc p = true) others ->
-  count open_cb (thr (reach sched named selfs initok others)) <= 1.
+  count open_cb (thr (reach sched named lim fb selfs initok others)) <= 1.
 Proof. intros. apply Inv_no_overlap. apply Inv_reachable. assumption. Qed.
 Print Assumptions C05_terminate_alone.
 
@@ -53,9 +53,9 @@ Print Assumptions C05_terminate_alone.
    callback reflects a cause that occurred: 'kill' only if some Node.Kill executed its swap,
    'panic' only if the callback of a handled message panicked, any other reason only if the
    callback of a handled message returned exactly that error *)
-Theorem C05_reason : forall sched named selfs initok others r,
+Theorem C05_reason : forall sched named lim fb selfs initok others r,
   Forall (fun p => init_pc p = true) others ->
-  let c := reach sched named selfs initok others in
+  let c := reach sched named lim fb selfs initok others in
   treason (sh c) = Some r ->
   (r = rkill /\ killed (sh c) = true) \/
   (exists m, In (mid m) (handled (sh c)) /\ (mbeh m = BErr r \/ (mbeh m = BPanic /\ r = rpanic))).
@@ -81,6 +81,6 @@ Print Assumptions C05_meta_exactly_once_at_end.
 (* non-vacuity: handler error racing two Kill calls: terminated once, reason = the error *)
 Example C05_example :
   let c := run (repeat 0 8 ++ repeat 1 8 ++ [2;2;3;3] ++ repeat 4 20 ++ repeat 5 30 ++ repeat 2 5 ++ repeat 3 5)
-               (init_cfg false [] true [S_load false [mk_msg 1 2 (BErr 7)]; K_load; K_load]) in
+               (init_cfg false 0 false [] true [S_load false [mk_msg 1 2 (BErr 7)]; K_load; K_load]) in
   quiescent c = true /\ terms (sh c) = 1 /\ fin (sh c) = true.
 Proof. vm_compute. repeat split; reflexivity. Qed.
